@@ -237,7 +237,7 @@ def access_module(wd):
 
 # assignments implemented as one flat copy over the operands' storage: equal element counts already exclude any out-of-bounds access, so a size
 # comparison (array_ref's own assertion compares num_elements()) is accepted in place of an extents comparison
-FLAT_ASSIGN = ("view_elements_assign", "ref_assign_ref", "ref_move_assign", "rvalue_ref_move_assign")
+FLAT_ASSIGN = ("view_elements_assign", "view_elements_assign_same", "ref_assign_ref", "ref_move_assign", "rvalue_ref_move_assign")
 
 
 def norm_events(r):
